@@ -867,7 +867,7 @@ def known_variant_tempo(spec, d):
 # ----------------------------------------------------------------------------- durations
 @st.composite
 def strat_durations(draw, tier="quick"):
-    mode = draw(st.sampled_from(["roundtrip", "roundtrip", "add", "add", "add-int", "sum", "list"]))
+    mode = draw(st.sampled_from(["roundtrip", "roundtrip", "add", "add", "add-int", "sum", "list", "chain", "chain"]))
     wide = draw(st.integers(0, 4)) == 0
     comp = G.component(allow_zero=True, musical=not wide)
     if mode == "roundtrip":
@@ -878,6 +878,10 @@ def strat_durations(draw, tier="quick"):
         return {"mode": mode, "a": draw(comp), "k": draw(st.integers(0, 40)), "right": draw(st.booleans())}
     if mode == "sum":
         return {"mode": mode, "parts": draw(st.lists(comp, min_size=2, max_size=5))}
+    if mode == "chain":
+        # a history of additions in which earlier (compound) results are reused as operands
+        return {"mode": mode, "parts": draw(st.lists(G.component(allow_zero=False, musical=True), min_size=3, max_size=5)),
+                "reuse": draw(st.lists(st.integers(0, 3), min_size=1, max_size=3))}
     return {"mode": mode, "items": draw(st.lists(G.duration(), min_size=1, max_size=4))}
 
 
@@ -923,6 +927,37 @@ def oracle_durations(spec):
             Cmp(o, "fractional-list").dur("item", zi, comps)
         if call(U.format_fractional, z) != text:
             o.add("fractional-list-format-not-inverse", text=text, got=U.format_fractional(z))
+        return o
+    if mode == "chain":
+        # acc_k = acc_{k-1} + part_k; every intermediate (compound) value is kept and must not change
+        # when it is used again as an operand
+        o.nontrivial = True
+        parts = spec["parts"]
+        objs = [FSD(n, d, t) for n, d, t in parts]
+        kept = []  # (object, text, exact value)
+        acc = objs[0]
+        for k in range(1, len(objs)):
+            acc = call(lambda a=acc, b=objs[k]: a + b)
+            if not isinstance(acc, FSD):
+                o.add("duration-add-not-a-duration", got=repr(acc)[:100])
+                return o
+            kept.append((acc, call(str, acc), _exact(acc), call(float, acc)))
+        # reuse earlier intermediates as left and right operands
+        for r in spec["reuse"]:
+            left = kept[r % len(kept)][0]
+            call(lambda: left + objs[-1])
+            call(lambda: objs[0] + left)
+        for k, (obj, text, exact, f) in enumerate(kept):
+            if call(str, obj) != text or _exact(obj) != exact or call(float, obj) != f:
+                o.add("duration-add-modified-operand", step=k, before=text, after=str(obj))
+                break
+            back = call(FSD.from_string, text)
+            if call(str, back) != text or abs(call(float, back) - f) > 1e-12:
+                o.add("duration-str-not-fixpoint", first=text, second=str(back))
+                break
+        for obj, c in zip(objs, parts):
+            if (obj.numerator, obj.denominator, obj.tuple_div, obj.add_components) != (c[0], c[1], c[2], None):
+                o.add("duration-add-modified-operand", comp=c)
         return o
     if mode == "add":
         comps = [spec["a"], spec["b"]]
